@@ -17,6 +17,7 @@ fn alpha(cfg: &Cfg) -> Vec<Op> {
         t("é"),
         t("漢"),
         t("\u{161}"),
+        t("\u{301}"),
         t(" "),
         t("bc"),
         c(Rep(None)),
